@@ -243,11 +243,8 @@ pub fn is_nearest(d: &Dec, x: f64) -> Option<bool> {
     if x.is_nan() {
         return Some(false);
     }
-    if x.is_sign_negative() != d.neg && !(d.digits.is_zero() && x == 0.0 && x.is_sign_negative() == d.neg) {
-        if !(x == 0.0 && d.digits.is_zero()) {
-            return Some(false);
-        }
-        return Some(x.is_sign_negative() == d.neg);
+    if x.is_sign_negative() != d.neg {
+        return Some(false);
     }
     let ax = x.abs();
     let (vn, vd) = rational(&d.digits, 0, d.e10);
